@@ -443,6 +443,12 @@ pub fn gen_world(seed: u64) -> C12World {
                 body = format!("{body} + [{bad}]");
                 expect = Expect::Fail(1, "last element fails late".into());
             }
+            13 if mode.o.is_none() => {
+                // a real unwritable target: the directory of the -o file does not exist
+                extra_flags.push("-o".into());
+                extra_flags.push("no_such_dir/res.out".into());
+                expect = Expect::Fail(1, "-o into a missing directory".into());
+            }
             12 => {
                 extra_flags.push("--ext-str".into());
                 extra_flags.push("dup=1".into());
